@@ -27,10 +27,15 @@ signal.signal(signal.SIGALRM, _alarm)
 # (notation, auto_preds, declared predicates, in-place replacement applied to the store before parsing)
 CONFIGS = [('polish', 1, (), None), ('polish', 0, ((0, 0, 1), (1, 0, 2)), None), ('standard', 1, (), None),
            ('standard', 0, ((0, 0, 1), (1, 0, 2)), None),
-           ('polish', 1, ((0, 0, 1), (1, 0, 2)), (0, (0, 0, 2))), ('standard', 0, ((0, 0, 1), (1, 0, 1)), (1, (1, 0, 3)))]
+           ('polish', 1, ((0, 0, 1), (1, 0, 2)), (0, (0, 0, 2))), ('standard', 0, ((0, 0, 1), (1, 0, 1)), (1, (1, 0, 3))),
+           # an IMMUTABLE store with the parser's default options (auto_preds on): nothing can be declared, so the
+           # parser must behave as with auto_preds off (recorded as auto = 0)
+           ('polish', 0, ((0, 0, 1),), 'frozen'), ('standard', 0, (), 'frozen')]
 
 
 def make_store(preds, repl):
+    if repl == 'frozen':
+        return Predicates.Frozen(preds)
     st = Predicates(preds)
     if repl is not None:
         i, p = repl
@@ -66,12 +71,14 @@ def main(strings, out, agg, shard, nshards):
     counts = {'aggregated_parse_errors': 0, 'parsed_ok': 0, 'total': 0}
     with open(out, 'w') as o:
         for notation, auto, preds, repl in CONFIGS:
-            live = Parser(notation, make_store(preds, repl), auto_preds=bool(auto))
+            frozen = repl == 'frozen'
+            live = Parser(notation, make_store(preds, repl)) if frozen else Parser(notation, make_store(preds, repl), auto_preds=bool(auto))
             for n, c in enumerate(strs):
                 before = store(live)
                 o1, s1 = parse(live, c['str'])
                 try:
-                    fresh = Parser(notation, Predicates(tuple(x) for x in before), auto_preds=bool(auto))
+                    fresh = (Parser(notation, Predicates.Frozen(tuple(x) for x in before)) if frozen
+                             else Parser(notation, Predicates(tuple(x) for x in before), auto_preds=bool(auto)))
                     o2, s2 = parse(fresh, c['str'])
                 except Exception as e:       # the live store cannot even be re-declared: recorded, judged by the spec
                     o2, s2 = f'StoreRejected:{type(e).__name__}', []
@@ -82,7 +89,7 @@ def main(strings, out, agg, shard, nshards):
                     continue
                 if o1 == 'ok':
                     counts['parsed_ok'] += 1
-                o.write(json.dumps({'id': f"{notation}/{auto}/{c['id']}", 'notation': notation, 'auto': auto, 'str': c['str'],
+                o.write(json.dumps({'id': f"{notation}/{auto}{'f' if frozen else ''}/{c['id']}", 'notation': notation, 'auto': auto, 'str': c['str'],
                                     'store_before': before, 'store_after': after, 'out': o1, 'sent': s1,
                                     'fresh_out': o2, 'fresh_sent': s2}, separators=(',', ':')) + '\n')
                 # keep the auto store from growing without bound: restart the live parser now and then
